@@ -64,16 +64,20 @@ func writeTTFHeader(nTables int, out []byte) {
 }
 
 func checksum(table []byte) uint32 {
+	var sum uint32
+	n := len(table) / 4
+	for i := 0; i < n; i++ {
+		sum += binary.BigEndian.Uint32(table[i*4:])
+	}
+
 	// "To accommodate data with a length that is not a multiple of four,
 	// the above algorithm must be modified to treat the data as though
 	// it contains zero padding to a length that is a multiple of four."
+	// (the input slice is not modified)
 	if r := len(table) % 4; r != 0 {
-		table = append(table, make([]byte, r)...)
-	}
-
-	var sum uint32
-	for i := 0; i < len(table)/4; i++ {
-		sum += binary.BigEndian.Uint32(table[i*4:])
+		var last [4]byte
+		copy(last[:], table[n*4:])
+		sum += binary.BigEndian.Uint32(last[:])
 	}
 
 	return sum
